@@ -4621,8 +4621,8 @@ class EntityMeta(type):
     def drop_table(entity, with_all_data=False):
         entity._database_._drop_tables([ entity._table_ ], True, with_all_data)
     def _get_attrs_(entity, only=None, exclude=None, with_collections=False, with_lazy=False):
-        if only and not isinstance(only, str): only = tuple(only)
-        if exclude and not isinstance(exclude, str): exclude = tuple(exclude)
+        if only is not None and not isinstance(only, str): only = tuple(only)
+        if exclude is not None and not isinstance(exclude, str): exclude = tuple(exclude)
         key = (only, exclude, with_collections, with_lazy)
         attrs = entity._attrnames_cache_.get(key)
         if not attrs:
